@@ -3,9 +3,12 @@
   (harness/src/m_scale_chk.rs): every op runs ONE checked kernel of `EG.Model.Checked*` at the
   given integers and prints its canonical result, or `panic` where the checked kernel returns
   `none` (= a build with overflow checks and debug assertions panics there). `scale.adapter` ops
-  with a `calls` job are served by Driver/ScaleAdapter.lean (adapter model at display scale). The
-  other `scale.*` streams (`scale.shape/text/image/reject/dotted`, `scale.adapter` with other jobs)
-  have no model: oracle only (`skip`).
+  with a `calls` job are served by Driver/ScaleAdapter.lean (adapter model at display scale).
+  From the PLAIN models (see the section before `handleScale`): `scale.shape` for every shape kind
+  (Driver/ShapeView.lean) whose styled bounding box and primitive box are at most `scaleShapeMaxArea`
+  px, `scale.image`, `scale.text` for built-in fonts with both or neither of text / background colour,
+  `scale.reject sub`. No model (`skip`): `scale.dotted`, the other `scale.reject` kinds, `scale.adapter`
+  with other jobs, and the `scale.shape` / `scale.text` ops outside the slices just named.
 -/
 import EG.Driver.ShapeView
 import EG.Model.ImageRaw
